@@ -7,6 +7,10 @@
    positions whose content changed (chg, nchg; two complementary pre-fills), same = a second run with different garbage
    in every undesignated cell gave identical results, inw = no input arena / index list was modified, slack = nothing
    before the start of an arena was touched.
+   al = "none" | "a" | "b": the result was the same object as that operand (same registers / same pointer); a and b are
+   always the values held before the call.  wa / wb: the operand has a huge stride (sparse arena: only the pages holding
+   designated cells are accessible); its stride, element positions and extent are then logged as 64-bit limb words
+   (saw apw anw ...) because TLC integers are 32 bit, and checked with the limb form of Addr for a strided operand.
    Accepted iff the driver addressed the operands as the table row says, every result element is congruent (mod p,
    coefficient-wise) to the scalar extension operation on the k-th operands, the changed positions are exactly the write
    footprint of the row, and same / inw / slack hold.  A "crash" event (guard-page fault, abort) is never accepted. *)
@@ -21,8 +25,21 @@ AddrOk(d, n, ps, ext, s, idx) ==
   IF InMem(d) THEN /\ Len(ps) = n /\ \A k \in 0..(n - 1) : ps[k + 1] = Addr(d, k, 0, s, idx)
                    /\ ext = Extent(d, n, s, idx)
   ELSE Len(ps) = 0 /\ ext = 0
-ArgsOk(d, n, s, idx) == /\ Len(idx) = (IF d.kind = "index" THEN n ELSE 0) /\ (d.kind # "stride" => s = 0)
-                        /\ \A i \in DOMAIN idx : idx[i] >= 0
+ArgsOkN(d, n, s, idx) == /\ Len(idx) = (IF d.kind = "index" THEN n ELSE 0) /\ (d.kind # "stride" => s = 0)
+                         /\ \A i \in DOMAIN idx : idx[i] >= 0
+(* Addr(d, k, 0, s, idx) = k * s and Extent = (n - 1) * s + Width(d) for a strided operand, over 8 byte limbs *)
+MulSmallW(k, w) == Norm8(k * w[1], k * w[2], k * w[3], k * w[4], k * w[5], k * w[6], k * w[7], k * w[8])
+AddSmallW(w, i) == Norm8(w[1] + i, w[2], w[3], w[4], w[5], w[6], w[7], w[8])
+ASSUME \A s \in {0, 1, 3, 7, 1000, 65537}, k \in 0..7 :
+         /\ MulSmallW(k, OfInt(s)) = OfInt(k * s)
+         /\ AddSmallW(MulSmallW(k, OfInt(s)), 3) = OfInt(Addr([elem |-> "ext", kind |-> "stride", param |-> "p"], k, 0, s, <<>>) + 3)
+WideOk(d, n, psw, extw, sw) ==
+  /\ d.kind = "stride" /\ IsWord(sw) /\ sw[8] = 0 /\ sw[7] = 0 /\ sw[6] = 0        \* stride < 2^40: no wrap below
+  /\ Len(psw) = n /\ \A k \in 0..(n - 1) : psw[k + 1] = MulSmallW(k, sw)
+  /\ extw = AddSmallW(MulSmallW(n - 1, sw), Width(d))
+OpAddrOk(d, n, wide, ps, ext, s, idx, psw, extw, sw) ==
+  IF wide THEN WideOk(d, n, psw, extw, sw) /\ Len(ps) = 0 /\ s = 0 /\ Len(idx) = 0
+  ELSE ArgsOkN(d, n, s, idx) /\ AddrOk(d, n, ps, ext, s, idx)
 ValsOk(d, n, vs) == /\ Len(vs) = n
                     /\ \A k \in 1..n : Len(vs[k]) = Width(d) /\ IsWordSeq(vs[k])
                     /\ (d.kind = "const" => \A k \in 1..n : vs[k] = vs[1])          \* a broadcast operand is one element
@@ -32,13 +49,22 @@ AuxOk(r, n, e) == IF r.aux = "none" THEN Len(e.x) = 0
 OkCall(e) ==
   LET r == Table16[e.id]  n == r.lanes
       WF == Footprint(r.c, n, e.sc, e.ic)
-  IN /\ ArgsOk(r.a, n, e.sa, e.ia) /\ ArgsOk(r.b, n, e.sb, e.ib) /\ ArgsOk(r.c, n, e.sc, e.ic)
-     /\ AddrOk(r.a, n, e.ap, e.an, e.sa, e.ia) /\ AddrOk(r.b, n, e.bp, e.bn, e.sb, e.ib) /\ AddrOk(r.c, n, e.cp, e.cn, e.sc, e.ic)
+  IN /\ OpAddrOk(r.a, n, e.wa, e.ap, e.an, e.sa, e.ia, e.apw, e.anw, e.saw)
+     /\ OpAddrOk(r.b, n, e.wb, e.bp, e.bn, e.sb, e.ib, e.bpw, e.bnw, e.sbw)
+     /\ ArgsOkN(r.c, n, e.sc, e.ic) /\ AddrOk(r.c, n, e.cp, e.cn, e.sc, e.ic)
+     \* alias mode: allowed by the row, and the aliased operand is addressed exactly like the result
+     /\ e.al \in AliasModes(r)
+     /\ (e.al = "a" => ~e.wa /\ (InMem(r.c) => SameCells(r.c, r.a, n, e.sc, e.ic, e.sa, e.ia)))
+     /\ (e.al = "b" => ~e.wb /\ (InMem(r.c) => SameCells(r.c, r.b, n, e.sc, e.ic, e.sb, e.ib)))
      /\ ValsOk(r.a, n, e.a) /\ ValsOk(r.b, n, e.b) /\ AuxOk(r, n, e)
      /\ (InMem(r.c) => Disjoint(r.c, n, e.sc, e.ic))                 \* the harness asked for a well-defined result
      /\ Len(e.r) = n
      /\ \A k \in 1..n : Len(e.r[k]) = 3 /\ IsWordSeq(e.r[k]) /\ Eq3(e.r[k], Expected(r.op, r.a, r.b, e.a[k], e.b[k]))
-     /\ e.nchg = Cardinality(WF) /\ SeqSet(e.chg) = WF
+     \* without aliasing every result cell differs from one of the two complementary pre-fills; an aliased result cell held
+     \* the operand coefficient before the call and stays unchanged when the result coefficient has the same word (the
+     \* result check above reads it from that cell), so only "nothing outside the write footprint changed" remains
+     /\ IF e.al = "none" THEN e.nchg = Cardinality(WF) /\ SeqSet(e.chg) = WF
+        ELSE e.nchg = Len(e.chg) /\ SeqSet(e.chg) \subseteq WF
      /\ e.same /\ e.inw /\ e.slack
 Ok(e) == CASE e.e = "l16" -> e.id \in Ids16 /\ OkCall(e)
            [] OTHER -> FALSE
